@@ -16,7 +16,7 @@ CHECKS = {
     "C01": {
         "level": "model_checking",
         "technique": "TLA+ spec of the file tree, POSIX resolution and the lookup (Fs, Static) model-checked by TLC; TLC-enumerated targets x worlds replayed on both real entry points; responses validated by TLC (Trace_Static, C01Violations); Fs model validated against the OS",
-        "text": "TLC proves on the design that the contained lookup never selects an outside node except through an owner's link (52k world x path states; the implementation-shaped variant is refuted with /../s0). Every target of <= K segments over a 15-token alphabet on 8 worlds and ~1.4k climbing skeletons x leads/query/fragment/method/Range decorations on 12 worlds run through Server::process and Server::process_request; each response is judged by the spec (reserved secret byte values, climbing => error status). Seeded random deeper worlds add the code -> spec direction.",
+        "text": "TLC proves on the design that the contained lookup never selects an outside node except through an owner's link (52k world x path states; the implementation-shaped variant is refuted with /../s0). Every target of <= K segments over a 15-token alphabet on 8 worlds and ~1.4k climbing skeletons x leads/query/fragment/method/Range decorations on 12 worlds run through Server::process and Server::process_request; each response is judged by the spec (reserved secret byte values, climbing => error status). One-segment spellings that only climb if the server decodes them (6 dot spellings x 7 encoded / doubly encoded / back-slash separators) are included. A sample of the cases (thorough: all) is also sent to the real binary over a socket. Seeded random deeper worlds add the code -> spec direction.",
         "note": "Trusted: TLC, projector (status, set of byte values >= 128), tree materialiser. Fs!Resolve is checked against std::fs::metadata on every path of the run (a mismatch is a tool error).",
     },
     "C02": {
@@ -28,7 +28,7 @@ CHECKS = {
     "C03": {
         "level": "model_checking",
         "technique": "TLA+ range algebra (Static: InFile/Slice/CRParse/MultiParts) model-checked by TLC (MC_Range); TLC-enumerated Range headers x file lengths replayed on Server::process; 206/416 responses incl. multipart bodies parsed and validated by TLC",
-        "text": "Every single range-spec with offsets from {0,1,L-2,L-1,L,L+1,u64max,>u64max,junk} for L in {0,1,2,3,10,8191,8192,8193,70000}, all pairs (thorough: triples) over a reduced set, whitespace / wrong unit / empty list; labels, sizes, exact slice bytes, part order and multipart structure are checked by spec operators on the raw bytes.",
+        "text": "Every single range-spec with offsets from {0,1,L-2,L-1,L,L+1,u64max,>u64max,junk} for L in {0,1,2,3,10,8191,8192,8193,70000}, slices whose length is a whole number of 16/32/64 KiB blocks (+-1) on the large file, offsets around 4096 on the 8 KiB files, all pairs (thorough: triples) over a reduced set, whitespace / wrong unit / empty list; in-process and over a socket against the real binary; labels, sizes, exact slice bytes, part order and multipart structure are checked by spec operators on the raw bytes.",
         "note": "Known finding KF-C03-end-is-length (Content-Range end = L) is matched by a part-by-part diagnosis computed in the spec (parts in {ok,endL}); any other deviation is a VIOLATION.",
     },
     "C09": {
@@ -40,7 +40,7 @@ CHECKS = {
     "C04": {
         "level": "exploration",
         "technique": "TLA+ connection state machine (Conn.tla) model-checked by TLC; TLC-generated structure-aware mutations of requests (Mutation.tla, Gen_Conn) x handlers x transport scripts replayed on Server::process in child processes; every transport call validated by TLC as a Conn step (Trace_Conn)",
-        "text": "Every single mutation (thorough: pairs) of 20 seed requests, three application handlers and 60 transport scripts; a panic, abort (stack overflow) or missing/incomplete answer has no action in Conn and is rejected; unparseable request lines and handler errors must yield an error status. The space is unbounded, so this is exploration of a structured space, not exhaustive.",
+        "text": "Every single mutation (thorough: pairs) of 20 seed requests, three application handlers and 60 transport scripts; a panic, abort (stack overflow), a call that never returns (outcome hang: re-reading an exhausted transport, or 45 s without progress) or a missing/incomplete answer has no action in Conn and is rejected; unparseable request lines and handler errors must yield an error status. The space is unbounded, so this is exploration of a structured space, not exhaustive.",
         "note": "Child processes, named thread, 2 MiB stack, dev profile opt-level 0 with overflow checks (what `cargo build` ships). Release-profile stack depth is not sampled.",
     },
     "C05": {
@@ -82,13 +82,13 @@ CHECKS = {
     "C12": {
         "level": "model_checking",
         "technique": "TLA+ Config.tla (four-step fold vs declarative Effective) model-checked by TLC with two order mutants refuted; TLC-generated source assignments rendered as environment / rws.config.toml / argv for real start-ups of the binary; observed effective values validated by TLC (Trace_Config)",
-        "text": "859 real launches: each of the 11 settings x all 8 subsets of sources (booleans over every value assignment) x file styles (comments, quotes, arrays, reversed key order, spaces), short/long flags, hyphen / [cors] table / root-key spellings, full configurations from every subset of sources, and the allow-all switch paired with every other CORS setting across sources; probes: announced+accepting address, thread-count line, buffer echo, CORS grants.",
+        "text": "931 real launches: each of the 11 settings x all 8 subsets of sources (booleans over every value assignment) x 4 file styles (plain; comments + single quotes + arrays; reversed key order + spaces; tight = no blanks, comments glued to values and to the table header, tab, indented comment line, CRLF), short/long flags, hyphen / [cors] table / root-key spellings, full configurations from every subset of sources, and the allow-all switch paired with every other CORS setting across sources; probes: announced+accepting address, thread-count line, buffer echo, CORS grants.",
         "note": "CORS lists are observable only while the effective allow-all switch is off; the thread count is read from the start-up line.",
     },
     "C13": {
         "level": "model_checking",
         "technique": "TLA+ Server.tla (no action writes fs: EnvFsUnchanged model-checked by TLC); wire traces of the real binary under strace validated by TLC (Trace_Server: TSyscall has no action for mutating calls, TManifest requires the manifest unchanged)",
-        "text": "All single mutations of 31 seed requests (incl. PUT/DELETE/PATCH/POST uploads, multipart filenames and ?name= values pointing outside) and 10 asset/dir targets x 6 methods are sent to the real binary running under strace -f; every path-naming system call is an event, and the full manifest (paths, kinds, sizes, hashes, link targets) of the served tree, a sibling directory and the parent is compared before/after.",
+        "text": "All single mutations of 34 seed requests (incl. PUT/DELETE/PATCH/POST uploads, multipart file parts with harmless, existing, nested and outside-pointing filenames, ?name= values pointing outside) and 10 asset/dir targets x 6 methods are sent to the real binary running under strace -f; every path-naming system call is an event, and the full manifest (paths, kinds, sizes, hashes, link targets) of the served tree, a sibling directory and the parent is compared before/after.",
         "note": "Trusted: strace's view of the process, the manifest walker. Paths under /dev, /proc, /sys are exempt.",
     },
     "C14": {
@@ -130,7 +130,7 @@ CHECKS = {
     "C18": {
         "level": "model_checking",
         "technique": "TLA+ spec of RFC 4648 (Codec_Base64) model-checked by TLC; TLC-enumerated inputs replayed on Base64::encode/decode; trace validation by TLC",
-        "text": "TLC checks the streaming encoder/decoder model against the position-wise RFC 4648 definition for every 1- and 2-byte input and all inputs over a boundary byte set; every such input, spec-generated corruptions and seeded random inputs are run through the real library and each recorded call is validated against the spec (thorough: all 16.8M 3-byte groups).",
+        "text": "TLC checks the streaming encoder/decoder model against the position-wise RFC 4648 definition for every 1- and 2-byte input and all inputs over a boundary byte set; every such input, spec-generated corruptions and seeded random inputs are run through the real library and each recorded call is validated against the spec An exhaustive sweep sends all 2^24 three-byte groups through Base64::encode and all 64^4 four-character groups through Base64::decode (quick: 4/256 resp. 1/64 of the first coordinate, every value of the others) and records per pair of neighbouring coordinates the set of values seen at each output position; TLC judges every set (Codec_Base64!SweepPermitted: the singleton RFC 4648 prescribes) and MC_Base64!TablesAgree ties the tables to Enc/Dec.",
         "note": "Trusted: TLC, Json module, harness projector (bytes -> int arrays). Decoder inputs are UTF-8 strings.",
     },
 }
